@@ -443,6 +443,49 @@ def clause_c(facts, rep):
     rep.require(n >= 1, 'C06.c: terminator store in ToString not found')
 
 
+def clause_d(facts, rep):
+    """Stack::Grow(cnt) - the post-condition the write-budget analysis builds on - is evaluated (sv/minterp.py, with
+    realloc as the only primitive): for every (bytes used, capacity, cnt) on a grid around the doubling and the
+    1.5x branch, afterwards the block is at least used + cnt bytes large, the contents offset is unchanged and the
+    recorded capacity does not exceed the block."""
+    from ..minterp import Interp, Unsupported, UndefinedBehaviour
+    fs = [f for f in facts.functions if f.cls_qn == 'sonic_json::internal::Stack' and f.short == 'Grow']
+    rep.require(len(fs) >= 1, 'C06.d: Stack::Grow not found')
+    for f in fs[:1]:
+        rep.fn(f)
+        bad = None
+        cnt_ = 0
+        try:
+            for cap in (8, 64, 128, 1000, 4096):
+                for used in sorted(set([0, 1, cap // 2, cap - 9, cap - 8, cap - 1, cap])):
+                    if used < 0:
+                        continue
+                    for cnt in (1, 3, 8, 9, 33, cap - used - 1, cap - used, cap - used + 1, cap, 2 * cap - used, 2 * cap - used + 1, 3 * cap, 100000):
+                        if cnt <= 0:
+                            continue
+                        cnt_ += 1
+                        allocs = []
+
+                        def hook(e, args, env, members):
+                            if e.get('cname') == 'realloc':
+                                allocs.append(args[1])
+                                return 0x40000000
+                            return None
+                        base = 0x10000000
+                        _, _, mem, _ = Interp(f, facts, call_hook=hook).run({f.params[0]['id']: cnt}, {'buf_': base, 'top_': base + used, 'cap_': cap})
+                        block = allocs[-1] if allocs else ((cap + 7) & ~7)
+                        if block < used + cnt or mem['top_'] - mem['buf_'] != used or mem['cap_'] > block:
+                            bad = 'used=%d cap=%d Grow(%d): block of %d bytes, contents at +%d, recorded capacity %d' % (used, cap, cnt, block, mem['top_'] - mem['buf_'], mem['cap_'])
+                            break
+                    if bad:
+                        break
+                if bad:
+                    break
+        except (Unsupported, UndefinedBehaviour) as ex:
+            raise AnalysisBroken('C06.d: Stack::Grow not evaluable: %s' % ex)
+        rep.check(bad is None, 'E4.grow-contract', f.qn, 'after Grow(cnt) at least cnt bytes are free behind top_ (%d states evaluated)' % cnt_, f.loc, bad or '', facts.config)
+
+
 def run(rep, tier):
     configs = ['K1'] if tier == 'quick' else ['K1', 'K2', 'K3']
     for cfg in configs:
@@ -451,6 +494,7 @@ def run(rep, tier):
         clause_a(facts, rep)
         clause_b(facts, rep)
         clause_c(facts, rep)
+        clause_d(facts, rep)
         # "parses back equal" needs the number writers to print the value they were given: the structural
         # obligations of the writers (shared with C07/C08) are re-checked here
         from . import c07
@@ -464,7 +508,7 @@ def run(rep, tier):
         from . import c09, c05
         c09.clause_a(facts, rep)
         c05.clause_a(facts, rep)
-    rep.trust('clang 14 front end', 'Stack::Grow(n) post-condition: at least n bytes free behind top_ (relational fact over buf_/top_/cap_, not decided here)',
+    rep.trust('clang 14 front end', 'std::realloc(p, n) returns a block of n bytes keeping the old contents',
               *['%s write contract: %s' % (k, v['why']) for k, v in WRITER_CONTRACT.items()])
     rep.assumptions += [
         'decides that every unchecked push / writer call in SerializeImpl is covered by the reservation in force on every path (loops by fixpoint), error propagation exits, Dump, ToString; plus the Schubfach interval parity and lossless-narrowing obligations of the number writers (shared with C07/C08)',
